@@ -311,6 +311,16 @@ fn validate_nodata_response(
     //   and that the NSEC3 RR that covers the "next closer" name has the Opt-
     //   Out bit set.
     if let Some(query_record) = query_name_record {
+        // A record matching `query_name` shows that the name exists, so the answer can't have
+        // been synthesized from a wildcard. RFC 5155 8.8 requires a record *covering* the next
+        // closer name for those.
+        if wildcard_encloser_num_labels.is_some() {
+            return cx.proof(
+                Proof::Bogus,
+                "wildcard expansion with record matching query name",
+            );
+        }
+
         if query_record.nsec3_data.type_set().contains(query_type)
             || query_record
                 .nsec3_data
